@@ -152,18 +152,6 @@ theorem makeRequest_ok (chains : List (Key × Chain)) (clock : Option Time) (sp 
       subst h
       exact ⟨ks, rfl, rfl, rfl, rfl⟩
 
-/-- the keys of a cleaned target are among the resolved keys, without repetition when those are distinct -/
-theorem cleanAlloc_zip_keys (w : World K) (ks : List Key) (v : List K) :
-    ((cleanAlloc w (ks.zip v)).map (·.1)).Sublist ks := by
-  unfold cleanAlloc
-  refine (List.filter_sublist.map _).trans ?_
-  induction ks generalizing v with
-  | nil => simp
-  | cons k ks ih =>
-      cases v with
-      | nil => simp
-      | cons x xs => simp only [List.zip_cons_cons, List.map_cons]; exact (ih xs).cons₂ k
-
 /-- **After any executed decision, every non-cash contract the action space did not resolve to is flat** —
     whatever the threshold: with a chain key in the space, every contract of the chain other than the current
     lead has position zero after the rebalance (the old lead has been closed). -/
